@@ -46,10 +46,14 @@ fn cmd_check(args: &[String]) -> i32 {
     let tier = if tier_s == "thorough" { Tier::Thorough } else { Tier::Quick };
     let seed = seed_of(args);
     let vdir = verif_dir(args);
-    let Some(p) = plan::plan_for(&prop_s) else {
+    let Some(mut p) = plan::plan_for(&prop_s) else {
         eprintln!("unknown property {}", prop_s);
         return 2;
     };
+    // debugging aid: restrict the run to one world
+    if let Ok(only) = std::env::var("VERIF_ONLY_WORLD") {
+        p.worlds.retain(|w| w.name() == only);
+    }
     let prop: &'static str = p.prop;
     let t0 = Instant::now();
     let mut stats = Stats::new(prop);
